@@ -296,7 +296,10 @@ func checkC11(r *Result) {
 				sum = sum.Add(le.Eval(tm.Of(st.Val)))
 			}
 		}
-		r.check(n == 2 && sum.Equal(atomPoly("share")), "ESCROW-RECORD", "(x/reporter/keeper.Keeper).EscrowReporterStake # amounts recorded for an origin add up to its share", P.Pos(er.Pos()), fmt.Sprintf("%d recorded amounts, sum = %s (share = what was taken at the snapshot validator + what was still owed and chased)", n, sum))
+		// share (everything asked for is recorded: today's code), or share minus what the last chase could not find
+		// (the form a repair of D18 would take) — C05 RECORD-EQUALS-TAKEN decides which of the two is right
+		okSum := sum.Equal(atomPoly("share")) || sum.Equal(atomPoly("share").Sub(atomPoly("owedAfterChase")))
+		r.check(n == 2 && okSum, "ESCROW-RECORD", "(x/reporter/keeper.Keeper).EscrowReporterStake # amounts recorded for an origin add up to its share", P.Pos(er.Pos()), fmt.Sprintf("%d recorded amounts, sum = %s (share = what was taken at the snapshot validator + what was still owed and chased)", n, sum))
 		for _, cs := range P.CallSitesIn(er) {
 			if cs.Desc() == "coll:x/reporter/keeper.Keeper.DisputedDelegationAmounts.Set" {
 				k := tm.Of(Arg(cs.Instr, 1))
@@ -307,11 +310,16 @@ func checkC11(r *Result) {
 						if st, ok := in.(*ssa.Store); ok {
 							if fa, ok := st.Addr.(*ssa.FieldAddr); ok && fieldName(fa.X.Type(), fa.Field) == "x/reporter/types.DelegationsAmounts.Total" {
 								okTot = tm.Of(st.Val).Op == "param:5:cosmossdk.io/math.Int"
+								if !okTot {
+									// or the running sum of what was recorded
+									adds, bases := sumWeb(st.Val)
+									okTot = len(adds) > 0 && len(bases) == 1 && bases[0].Op == "call:cosmossdk.io/math.ZeroInt"
+								}
 							}
 						}
 					}
 				}
-				r.check(strings.HasPrefix(k.Op, "param:7:") && okTot, "ESCROW-RECORD", "(x/reporter/keeper.Keeper).EscrowReporterStake # record keyed by the dispute hash, Total = requested amount", P.Pos(cs.Pos()), "key: "+k.Brief()+" ; value: "+v.Brief())
+				r.check(strings.HasPrefix(k.Op, "param:7:") && okTot, "ESCROW-RECORD", "(x/reporter/keeper.Keeper).EscrowReporterStake # record keyed by the dispute hash, Total = requested amount (or the sum recorded)", P.Pos(cs.Pos()), "key: "+k.Brief()+" ; value: "+v.Brief())
 			}
 			if cs.Desc() == "coll:x/reporter/keeper.Keeper.Report.Get" {
 				k := tm.Of(Arg(cs.Instr, 1))
